@@ -1,6 +1,54 @@
-(* C03 - placeholder replaced by the real statements (kept compiling at every commit). *)
-From Coq Require Import ZArith.
-From Verif Require Import Num.Amount Num.AmountProofs.
-Theorem same_precision_rescale_is_identity a : rescale a (exp a) = a.
-Proof. exact (rescale_same a (exp a) eq_refl). Qed.
-Print Assumptions same_precision_rescale_is_identity.
+(* C03 - Under currency rounding every presented amount re-adds exactly.
+   Property theorems only.  The vocabulary (currency_doc_wf, currency_identities, line_out_readds,
+   ct_readds, rt_readds, signed_sum ...) is defined, without proofs, in Calc/CurrencySpec.v; the model
+   `calculate` is Calc/Calc.v, tied to bill/*.go and tax/*.go by the correspondence checks of C01/C03.
+
+   currency_doc_wf d      = the 'currency' rule applies; items priced in the document currency declare
+                            its subunits; FIXED advance amounts (and an external rounding) are supplied
+                            at the currency's precision - the hypothesis the property states.
+   currency_identities d t = for c = the currency's decimals, as integers at exponent c:
+     every line: total = sum - discounts + charges;  sum = sum of line totals;
+     total = sum - discount + charge - tax_included;
+     every rate group: amount = rha(base * percent), surcharge likewise, exempt groups 0;
+     category amount = sum of its groups, category surcharge = sum of its groups' surcharges;
+     tax sum = ordinary categories - retained ones (surcharges included); totals.tax = tax sum;
+     total_with_tax = total + tax;  payable = total_with_tax + rounding;  due = payable - advances,
+     advances = sum of advance rows;  and no figure carries more decimals than the currency. *)
+From Coq Require Import ZArith List Bool String.
+From Verif Require Import Base.Wire Base.Rha Num.Amount Calc.Doc Calc.Calc Calc.CurrencySpec Calc.CurrencyProofs.
+Import ListNotations.
+Open Scope Z_scope.
+
+Theorem currency_rule_every_presented_amount_readds d t :
+  currency_doc_wf d -> calculate d = Totals t -> currency_identities d t.
+Proof. exact (currency_rule_readds d t). Qed.
+Print Assumptions currency_rule_every_presented_amount_readds.
+
+(* the line clause on its own: it needs no hypothesis on discounts/charges at all, because line
+   discount and charge amounts follow the rounding rule (repair recorded in findings/C03.json) *)
+Theorem currency_rule_line_total_readds c cur rates l lc :
+  item_wf cur c (ln_item l) -> calc_line true c cur rates l = Some lc ->
+  line_readds c (lc_price lc) (lc_sum lc) (lc_total lc) (lc_ds lc) (lc_cs lc).
+Proof. exact (calc_line_currency c cur rates l lc). Qed.
+Print Assumptions currency_rule_line_total_readds.
+
+(* each rate amount is its percentage of its base, rounded half away from zero to the currency *)
+Theorem currency_rule_rate_amounts c ct : ct_at c ct -> ct_readds c (ct_calc true c ct).
+Proof. exact (ct_calc_currency c ct). Qed.
+Print Assumptions currency_rule_rate_amounts.
+
+(* non-vacuity: a document with a tie (0.125 x 3 = 0.375 -> 0.38), a tax and an advance meets the
+   hypotheses and calculates *)
+Example hypotheses_are_satisfiable :
+  let d := mkDoc 2 true [] 1
+             [mkLine (mkA 1 0) (mkItem (mkA 1000 2) None []) [] []
+                     [mkLdc (mkA 0 0) None None (Some (mkA 125 3)) (Some (mkA 3 0))]
+                     [mkCombo (bs "VAT"%string) [] [] (Some (mkA 210 3)) None false []]]
+             [] [] [] [mkProw (mkA 100 2) None] [] None in
+  currency_doc_wf d /\
+  exists t, calculate d = Totals t /\ t_payable t = mkA 1256 2 /\ t_due t = Some (mkA 1156 2).
+Proof.
+  cbv zeta. split.
+  - unfold currency_doc_wf. cbn. repeat split; repeat constructor; cbn; intros; auto.
+  - eexists. split; [vm_compute; reflexivity|]. split; reflexivity.
+Qed.
